@@ -50,6 +50,14 @@ pub fn gen_c14(sh: &mut Shards, o: &Opts) -> serde_json::Value {
         shuffled.swap(i, j);
     }
     triples.extend(shuffled);
+    // two more passes ordered by packed keys (configurations whose keys collide in a too-narrow packing become adjacent)
+    let base: Vec<(u8, u8, u8)> = triples[..triples.len() / 2].to_vec();
+    let mut by_k1 = base.clone();
+    by_k1.sort_by_key(|&(m, t, p)| ((u32::from(m) * 16 + u32::from(p)) & 0xff, t));
+    let mut by_k2 = base.clone();
+    by_k2.sort_by_key(|&(m, t, p)| (((u32::from(p) << 4) | u32::from(t)) & 0xff, m));
+    triples.extend(by_k1);
+    triples.extend(by_k2);
     {
         {
             for &(m, t, p) in &triples {
@@ -106,6 +114,43 @@ pub fn gen_c14(sh: &mut Shards, o: &Opts) -> serde_json::Value {
                 jy(&mut s, "r2y_ref", &ref_r2y);
                 sh.emit(&s);
                 n += 1;
+            }
+        }
+    }
+    // the same table on LARGE frames (>= 2^20 pixels) for a slice of the triple space: every transfer x {BT709, Reserved}
+    // primaries x {BT709, Reserved, Identity} matrices (size-dependent dispatch must not change outcomes)
+    let (bw, bh) = (1025usize, 1024usize);
+    let big_rgb: Vec<[f32; 3]> = (0..bw * bh).map(|i| RGB_PX[i % 4]).collect();
+    let big_yuv: Vec<[u16; 3]> = (0..bw * bh).map(|i| YUV_PX[i % 4]).collect();
+    for &t in TC_ALL.iter().filter(|&&x| x != 2) {
+        for &p in &[1u8, 3] {
+            for &m in &[1u8, 3, 0] {
+                if o.thorough || (t + p + m) % 2 == 0 {
+                    let c = Cfg { mc: m, tc: t, cp: p, full: false, n: 8, ssx: 0, ssy: 0 };
+                    let yuv = || yuv444::<u8>(&big_yuv, bw, bh, &c).expect("ctor");
+                    let rgb = || Rgb::new(big_rgb.clone(), bw, bh, tc(t), cp(p)).expect("rgb");
+                    let lin = || LinearRgb::new(big_rgb.clone(), bw, bh).expect("lin");
+                    let xyb = || Xyb::from(lin());
+                    let mut s = String::new();
+                    let _ = write!(s, "\"ev\":\"c14row\",\"big\":1,\"mc\":{m},\"tc\":{t},\"cp\":{p},\"res\":{{");
+                    let _ = write!(s, "\"YuvToRgb\":\"{}\"", guard(|| Rgb::try_from(&yuv())).0);
+                    let _ = write!(s, ",\"RgbToYuv\":\"{}\"", guard(|| Yuv::<u8>::try_from((&rgb(), c.yuv_config()))).0);
+                    let _ = write!(s, ",\"YuvToLin\":\"{}\"", guard(|| LinearRgb::try_from(&yuv())).0);
+                    let _ = write!(s, ",\"YuvToXyb\":\"{}\"", guard(|| Xyb::try_from(&yuv())).0);
+                    let _ = write!(s, ",\"RgbToLin\":\"{}\"", guard(|| LinearRgb::try_from(rgb())).0);
+                    let _ = write!(s, ",\"RgbToXyb\":\"{}\"", guard(|| Xyb::try_from(rgb())).0);
+                    let _ = write!(s, ",\"LinToRgb\":\"{}\"", guard(|| Rgb::try_from((lin(), tc(t), cp(p)))).0);
+                    let _ = write!(s, ",\"XybToRgb\":\"{}\"", guard(|| Rgb::try_from((xyb(), tc(t), cp(p)))).0);
+                    let _ = write!(s, ",\"LinToYuv\":\"{}\"", guard(|| Yuv::<u8>::try_from((lin(), c.yuv_config()))).0);
+                    let _ = write!(s, ",\"XybToYuv\":\"{}\"", guard(|| Yuv::<u8>::try_from((xyb(), c.yuv_config()))).0);
+                    let _ = write!(s, ",\"LinToXyb\":\"{}\"", guard(|| Ok(Xyb::from(lin()))).0);
+                    let _ = write!(s, ",\"XybToLin\":\"{}\"", guard(|| Ok(LinearRgb::from(xyb()))).0);
+                    let _ = write!(s, ",\"LinToHsl\":\"{}\"", guard(|| Ok(Hsl::from(lin()))).0);
+                    let _ = write!(s, ",\"HslToLin\":\"{}\"", guard(|| Ok(LinearRgb::from(Hsl::from(lin())))).0);
+                    s.push('}');
+                    sh.emit(&s);
+                    n += 1;
+                }
             }
         }
     }
